@@ -268,7 +268,9 @@ def build_circuit(spec):
             for k, v in d['kw'].items():
                 if d['kwgroup'].get(k):
                     grp = [mkref(r) for r in v]
-                    kwin[k] = tuple(grp) if d['kwgroup'][k] == 'tuple' else grp
+                    # (iterators: deprecated but documented as accepted, usable only once)
+                    kwin[k] = {'tuple': tuple, 'list': list, 'gen': lambda g: (x for x in g),
+                               'iter': iter}[d['kwgroup'][k]](grp)
                 else:
                     kwin[k] = mkref(v)
             blk.connect(*args, **kwin)
@@ -561,7 +563,7 @@ def random_spec(rng):
             elif f == 'count_kw':
                 cb['args'] = [ref()[0] for _ in range(rng.randrange(0, 3))]
                 cb['kw'] = {'g': [ref()[0] for _ in range(rng.randrange(0, 4))], 's': ref()[0]}
-                cb['kwgroup'] = {'g': rng.choice(['tuple', 'list'])}
+                cb['kwgroup'] = {'g': rng.choice(['tuple', 'list', 'tuple', 'list', 'gen', 'iter'])}
                 tag = 'obj'
             else:
                 cb['args'] = [ref()[0] for _ in range(rng.randrange(0, 4))]
@@ -569,7 +571,7 @@ def random_spec(rng):
                     cb['kw'] = {'x': ref()[0]}
                 if rng.random() < 0.4:
                     cb['kw']['grp'] = [ref()[0] for _ in range(rng.randrange(0, 4))]
-                    cb['kwgroup'] = {'grp': rng.choice(['tuple', 'list'])}
+                    cb['kwgroup'] = {'grp': rng.choice(['tuple', 'list', 'tuple', 'list', 'gen', 'iter'])}
                 tag = 'obj'
         cblocks.append(cb)
         nodes.append((name, tag))
